@@ -555,6 +555,7 @@ def styles(draw: Any, lint_clean: bool = False) -> render_bp.Style:
         trailing_newline=lint_clean or draw(st.sampled_from([True, True, False])),
         crlf=draw(st.integers(0, 4)) == 1,
         proto_late=draw(st.integers(0, 3)) == 2,
+        op_spacing=draw(st.booleans()),
     )
 
 
